@@ -11,9 +11,9 @@ import vlib, apirec
 PID = "C14"
 NAN, INF = float("nan"), float("inf")
 ELEMS = [0, 255, 128, 256, -1, 1000, 0.0, 0.5, 1.0, 1.5, 127.6, 255.0, 300.0, NAN, INF, -INF, -0.5, 1e308, "128", "50%", "abc", "",
-         " ", "1e3", "-5", "999%", None, True, False]
+         " ", "1e3", "-5", "999%", "inf%", "1e999%", "-inf%", "nan%", "9" * 400 + "%", "100.3%", "-0.3%", None, True, False]
 TOKENS = ["rgb(", "rgba(", "hsl(", "hsla(", ")", ",", "/", "%", "-", "+", ".", "e", "1", "255", "0.5", "1e309", "deg", "var(--x)",
-          "inherit", "transparent", "currentcolor", "٣", " ", "#", "(", "fff", "red", "nan", "inf", "²", "\x00"]
+          "inherit", "transparent", "currentcolor", "٣", " ", "#", "(", "fff", "red", "nan", "inf", "²", "\x00", "inf%", "1e999%", "9" * 330, "100.3%", "-0.3%", "100.2%", "255.4", "360.0001", "1.001"]
 VALID_CSS = ["#ff0000", "#abc", "rgb(1, 2, 3)", "rgba(1, 2, 3, 0.5)", "hsl(120, 50%, 50%)", "hsla(120, 50%, 50%, 0.3)", "red",
              "rgb(10%, 20%, 30%)", "255, 0, 0", "(1,2,3)"]
 
@@ -54,6 +54,27 @@ def inputs(t, rnd):
     for n, cnt in ((3, 12000), (4, 12000), (6, 3000)) if t == "quick" else ((4, 250000), (6, 40000), (9, 5000)):
         for _ in range(cnt):
             vals.append("".join(rnd.choice(TOKENS) for _ in range(n)))
+    # numbers a hair outside (and inside) every documented range, in every functional form
+    hair = ["100.3%", "100.2%", "100.39%", "100.4%", "-0.3%", "-0.2%", "-0.39%", "100%", "0%", "255.4", "255.5", "255.6", "-0.4", "-0.6",
+            "256", "360.0001", "-0.0001", "1.001", "1.0001", "-0.001", "inf", "-inf", "nan", "1e400", "1e-400", "9" * 330, "9" * 330 + "%"]
+    for fn, arity in (("rgb", 3), ("rgba", 4), ("hsl", 3), ("hsla", 4)):
+        base = {"rgb": ["10", "20", "30"], "rgba": ["10", "20", "30", "0.5"], "hsl": ["120", "50%", "50%"], "hsla": ["120", "50%", "50%", "0.5"]}[fn]
+        for pos in range(arity):
+            for h in hair:
+                a = list(base)
+                a[pos] = h
+                vals.append(f"{fn}({', '.join(a)})")
+                if pos < 3 and fn in ("rgb", "rgba"):
+                    b = [x + "%" if not x.endswith("%") and k2 < 3 else x for k2, x in enumerate(base)]
+                    b[pos] = h if h.endswith("%") else h + "%"
+                    vals.append(f"{fn}({', '.join(b)})")
+    for h in hair:
+        for pos in range(3):
+            for cont in (tuple, list):
+                a = ["10", "20", "30"]; a[pos] = h
+                vals.append(cont(a))
+                a4 = ["10", "20", "30", "0.5"]; a4[pos] = h
+                vals.append(cont(a4))
     for _ in range(15000 if t == "quick" else 300000):
         s = rnd.choice(VALID_CSS)
         for _ in range(rnd.randrange(1, 4)):
